@@ -525,6 +525,9 @@ class Observer:
                 self.stat("restart-record-differs-from-in-flight")  # judged under C06/C08, only counted here
         self.check_cache(state, "after-treat")
         self.carry["cstep"] = state.cstep
+        self.carry["inflight_at_last_step"] = [
+            {"job": j, "ens": list(i["ens"]), "paths": list(i["paths"])} for j, i in sorted(self.jobs.items())
+        ]
         self.carry["frac"] = {int(pn): [str(x) for x in d["frac"]] for pn, d in state.traj_data.items()}
 
     @staticmethod
@@ -654,6 +657,7 @@ def _segment_child(seg, flags, carry):
     out["prep_count"] = obs.prep_count
     out["treat_count"] = obs.treat_count
     out["first_issued"] = obs.first_issued[: max(1, len(carry["locked_at_start"]))]
+    out["issued_all"] = [[list(e), list(p)] for e, p in obs.first_issued]
     out["inflight_at_end"] = [dict(job=i["job"], ens=i["ens"], paths=i["paths"]) for i in obs.jobs.values()]
     out["units_left_in_runner"] = len(drv.inflight)
     out["runner_stopped"] = drv.stopped
